@@ -41,6 +41,7 @@ struct Th {
     const void* last_load;
     uint64_t last_val;
     int same_loads;
+    uint64_t last_run;     // step at which the thread was last chosen (fair fallback)
 };
 
 struct Xo {
@@ -172,6 +173,16 @@ int cv_waiters(const void* cv, int* out) {
 }
 
 uint32_t pick(const int* cand, uint32_t n, bool me_en) {
+    // Fair fallback: liveness is only owed under a fair scheduler.  A run that has used a quarter of
+    // its step budget is continued least-recently-run-first, so that a correct busy-wait which the
+    // spin heuristic does not recognise (e.g. polling two atomics in turn) cannot be starved into
+    // the step bound by an unfair strategy; a genuine livelock still hits the bound.
+    if (int64_t(g.st.steps) > g.cfg.step_bound / 4) {
+        uint32_t best = 0;
+        for (uint32_t i = 1; i < n; ++i)
+            if (g.th[cand[i]].last_run < g.th[cand[best]].last_run) best = i;
+        return best;
+    }
     switch (g.cfg.strategy) {
     default:
     case STRAT_RANDOM:
@@ -262,6 +273,7 @@ void schedule(bool final_exit = false) {
     uint32_t idx = 0;
     if (n > 1) idx = take(n, g.replaying ? 0 : pick(cand, n, me_en));
     int next = cand[idx];
+    g.th[next].last_run = g.st.steps;
     if (me_en && next != me) g.st.preempts++;
     if (next == me) return;
     unpark(next);
